@@ -27,6 +27,23 @@ FIXED = [
     ("Y", ["C02", "C07"], "4c373e1", "creating/deleting a reference in a child space of a parametrised space (or in a space used as `base`) kept the live ItemSpaces (`Ch.g = 70` / `del Ch.s` left `A[1].Ch.f(0)` stale or raising NameError)"),
     ("AA", ["C02", "C06"], "bcf6de5", "clear_attr_referrers left the dependents of cleared elements in the reference graph; an input assigned to such an element later was wiped by a change of a reference its old computation had read"),
     ("BB", ["C02", "C09", "C13"], "f376ff6", "deleting a space kept values computed through its uncached cells (`T.tb: _model.D.bc(x)`, `D.bc` uncached, `del model.D`)"),
+    ("CC", ["C02", "C09"], "a7f2770", "renaming a space kept values computed through uncached cells of its tree (`B.c5: Ch.Gc.d0(x)`, d0 uncached, `Ch.rename(...)`)"),
+    ("C18-SAME", ["C18"], "d205150", "re-assigning the same value to its only reference deleted the value's IOSpec (`A.new_pandas('x',...,df); A.x = df` -> model.iospecs == [])"),
+    ("C18-SQUEEZE", ["C18"], "11cf51b", "update_pandas(Series -> one-column DataFrame), write, read_model: value read back as a Series"),
+    ("C18-UPDBOUND", ["C18"], "eb64bf6", "update_pandas onto a value already bound elsewhere forgot that reference: spec deleted while still bound, later del raised AssertionError"),
+    ("C18-DELSPACE", ["C18"], "fcef8cf", "deleting a space left the IOSpec of a value bound only to its references listed and its location claimed"),
+    ("C18-DOTDOT", ["C18"], "f510a1c", "'d/../d/f.xlsx' and 'd/f.xlsx' accepted as two locations: two specs for one file"),
+    ("C18-RESPEC", ["C18"], "236b381", "a second new_pandas / update_pandas for a value that already has a spec created a spec that was never released"),
+    ("REFMODE-FALSE", ["C04", "C11"], "e0ea72a", "references created by new_pandas/new_module/new_excel_range had reference mode False: re-deriving them raised ValueError('must not happen') mid-edit"),
+    ("C04-CR", ["C04"], "f6544a4", "carriage returns in documentation text were read back as newlines"),
+    ("C04-IOMODE", ["C04"], "845bcc2", "the reference mode of an IOSpec-valued space reference was read back as the spec id (a number)"),
+    ("C10-F1", ["C10"], "c7f249a", "string-prefix comparison of dotted names in DynBaseRefDict.wrap_impl: outside target 'I_K'/'I2' of base 'I' bound to a wrong object / ItemSpace could not be built"),
+    ("C10-F4", ["C10", "C03"], "04e2314", "a derived reference kept the reference mode it was created with when its nearest defining base changed"),
+    ("C10-F3", ["C10"], "b84f4ca", "re-assigning a reference lost its relative flag; ItemSpaces of the enclosing space then failed with AttributeError 'direct_bases'"),
+    ("C10-F2", ["C10"], "3f40626", "an auto reference derived from an outside base whose target lies inside the ItemSpace's base tree stayed bound to the static object"),
+    ("C10-F5", ["C10"], "13f7d6b", "add_bases/remove_bases did not re-derive references of child spaces bound relatively through their parents' inheritance: after `C.remove_bases(A)` `C.X.t` was a null object"),
+    ("HALFBUILT", ["C05", "C11"], "1145371", "a failed ItemSpace construction stayed registered in its base's dynamic-space list; the next namespace change raised AttributeError 'argvalues_if'"),
+    ("C04-NEWREF", ["C04", "C11"], "d3e60d4", "a model whose sub space was created before its base and overrides a reference was written without error but read_model raised 'Cannot create reference'; new_ref looked at the first sub space only"),
     ("M", ["C15"], "b10cccc", "export: names in a comprehension following a nested class/def scope were not rewritten to self.<name> (NameError in the package)"),
     ("N", ["C17"], "c0724cd", "nodes rolled back by a failure a formula handled leaked into the next traceback"),
     ("O", ["C04"], "14fa167", "`_is_cached = False` of a lambda-defined cells was written but not read back"),
@@ -39,7 +56,31 @@ try:
     cur = json.load(open(path))
 except OSError:
     cur = []
-known = [r for r in cur if r.get("status") == "known"]
+KNOWN = [
+    ("C04", "C04-P refmode of non-object reference lost",
+     "A.absref(x=1) (or relref; also a reference whose value is a deleted modelx object): refmode reads back 'auto' after write/read (the file format has no place for the mode of a literal/pickled value)",
+     "findings/c04_witnesses.py::P"),
+    ("C04", "C04 input values of a derived cells are not written",
+     "B(bases=A); B.c[1] = 50 on the derived cells c: the input is missing after write/read and B.c(1) is recomputed",
+     "findings/c04_witnesses.py::derived_input"),
+    ("C04", "C04 comment and blank lines before / after a def formula are not read back",
+     "formula source with a leading comment line, a comment after the last statement or trailing blank lines reads back without the lines outside the def statement",
+     "findings/c04_witnesses.py::def_surroundings"),
+    ("C04", "C04 a model whose documentation text contains a section-divider line cannot be read back",
+     "model.doc containing the line '# ' + '-'*75 followed by '# References': write succeeds, read_model raises JSONDecodeError/ValueError",
+     "findings/c04_witnesses.py::divider_in_doc"),
+    ("C04", "C04 whitespace-only lines of a def formula captured from CRLF text are emptied when read back",
+     "a def formula given as CRLF text with a whitespace-only line inside a triple-quoted string: after write/read the line is empty and the value changes",
+     "findings/c04_witnesses.py::crlf_blank_line"),
+    ("C18", "an accepted creation bound no reference to the value (scalar cells) [history has: creation under a scalar cells name]",
+     "new_pandas/new_module under the name of a scalar cells is accepted, assigns the cells' value, creates no reference, and the spec stays in the IOManager (location never released)",
+     "findings/c18_witnesses.py::SCALAR"),
+    ("C18", "a value still bound to a reference lost its spec [history has: value bound in the other model]",
+     "a spec at an absolute path whose value is also bound in a second model is ended by the second model (del / rebind / close there) while the first model's reference is still bound",
+     "findings/c18_witnesses.py::XMODEL"),
+]
+known = [{"status": "known", "property": p, "signature": sig, "what_fails": wf, "witness": wit}
+         for p, sig, wf, wit in KNOWN]
 out = list(known)
 for mech, props, commit, what in FIXED:
     for p in props:
